@@ -14,7 +14,7 @@ def is_shm_write(name):
 
 
 def is_recv(name):
-    return name.endswith('Receiver::<T>::recv')
+    return name.endswith(('Receiver::<T>::recv', 'Receiver::<T>::recv_timeout', 'Receiver::<T>::try_recv', 'Receiver::<T>::recv_deadline'))
 
 
 def is_apply(name):
